@@ -573,6 +573,21 @@ clock within the line), reported colours"
     for m128 in [false, true] {
         cases.push(Case { m128, ops: vec![Op::Out(0xFE, 3), Op::Frame, Op::SnapSzx(2, 0x05), Op::Frame, Op::Frame, Op::SetClk(30000), Op::SnapSzx(6, 0x11), Op::Frame, Op::Frame] });
     }
+    // very busy frames: more border changes in one frame than any fixed-size queue a renderer might keep
+    // (1025, 1100, 2050 writes), the last one of its own colour, then quiet frames
+    for m128 in [false, true] {
+        for n in [1025usize, 1100, 2050] {
+            let mut ops = vec![Op::Frame];
+            let gap = (clocks_frame(m128) - 600) / n;
+            for k in 0..n {
+                ops.push(Op::SetClk(200 + k * gap));
+                let colour = if k + 1 == n { 4 } else { [2u8, 6, 1, 5, 3, 7, 0][k % 7] };
+                ops.push(Op::Out(0x00FE, colour));
+            }
+            ops.extend_from_slice(&[Op::Frame, Op::Frame, Op::Frame]);
+            cases.push(Case { m128, ops });
+        }
+    }
     let n_cases = o.n(90, 9000) as usize;
     for i in 0..n_cases {
         let mut r = rng.fork();
